@@ -46,6 +46,22 @@ CHECKS = {
     ),
 }
 
+E2_NOTE = (
+    "No abstract model sits between checker and code: states are real document objects, transitions real "
+    "set_value/remove_value (or mapping) calls, so traces_validated_against_impl = transitions. Trusted base: the "
+    "reference model of the documented edit semantics (nixmc/editmodel.py, three-valued), the independent attribute-tree "
+    "decoder over the tree-sitter CST (nixmc/obs.py). Bounds (document alphabet, operation alphabet, history depth) are in "
+    "the evidence file. Known defects are listed in known_findings.json by minimal (document, history)."
+)
+CHECKS.update({
+    "C04": dict(cat="model_checking", text="Explicit-state BFS over edit histories on real documents (bodies x wrapper stacks x layouts); every successful transition whose effect the model defines is checked for locality: token sequence (and, on canonical documents, bytes) of the output equal the input's except one replaced value / one inserted binding / one removed binding with attached comments.", ref="DESIGN.md 1.3 (E2), 2/C04", note=E2_NOTE, technique="explicit-state BFS over operation histories on the real implementation, state merging on (text, structural snapshot), token/byte locality oracle"),
+    "C05": dict(cat="model_checking", text="Explicit-state BFS over edit histories; every transition is compared with a three-valued reference model of the documented set/rm semantics (must succeed with tree T / must be refused / unspecified) through an independent CST decoder of the emitted text: validity, no duplicate definitions, exact attribute tree and let layers, form of new attrpath members, refusals that depend on the wrapper stack.", ref="DESIGN.md 1.3 (E2), 2/C05", note=E2_NOTE, technique="explicit-state BFS over operation histories, lock-step comparison with a reference model, real implementation"),
+    "C08": dict(cat="model_checking", text="Every failing transition of the E2 graph: exception type in {KeyError, ValueError}, structural snapshot and rebuilt text of the live document identical before/after, and a differential follow-up layer (same next operation on the live object vs on a document that never saw the failed call).", ref="DESIGN.md 2/C08", note=E2_NOTE, technique="explicit-state BFS with fault transitions: state-snapshot equality after every failing call + differential replay"),
+    "C09": dict(cat="model_checking", text="Explicit-state BFS over scoped set/rm histories on documents with 0..3 (thorough 0..4) nested let layers around every editable shape, same name bound in several layers; reference model = list of dicts addressed by selector depth; plus locality of every scoped edit (other layers and body keep their text).", ref="DESIGN.md 2/C09", note=E2_NOTE, technique="explicit-state BFS over scoped edit histories, list-of-dicts layer model, real implementation"),
+    "C14": dict(cat="model_checking", text="Explicit-state BFS over histories of mapping get/set/delete on the document, a nested set, a non-mapping value and the scope mapping; a plain dict runs in lock-step; after every transition dict model == mapping lookups == attribute tree decoded from the rebuilt text; missing keys raise KeyError without side effects.", ref="DESIGN.md 2/C14", note=E2_NOTE, technique="explicit-state BFS over mapping-operation histories with a dict reference model in lock-step"),
+    "C19": dict(cat="model_checking", text="All instances of the four algebraic laws (idempotence, set-fresh/rm undo, rm/set redo, commutation) over every existing and fresh path of every canonical document in the bound, each executed CLI-style (re-parse between steps) and on one live object; the implementation is compared with itself.", ref="DESIGN.md 2/C19", note=E2_NOTE, technique="exhaustive enumeration of operation pairs/triples (paths of the state graph that must close) on the real implementation"),
+})
+
 NOT_YET = {
 }
 
